@@ -44,19 +44,19 @@ CLAIMED = {
             "All clauses structural: unbind decided before any dispatch, nothing read/dispatched after it, handler exactly once iff registered, no response written by gldap.",
             "2/C10", ""),
     "C11": ("necessary-condition check: asynchronous waker on shutdownCtx located by socket-use provenance + dominance, Stop ordering, lock scan",
-            "Necessary structural condition only: an asynchronous close/deadline of every connection's socket on shutdown exists and is armed before the first read; Stop orders Close/cancel before Wait. The time bound itself is not decided.",
+            "Necessary structural conditions only: an asynchronous read+write deadline/close of every connection's socket on shutdown exists, is armed before the first read and stays armed until the handlers have ended; every connWg.Add is matched; Stop orders Close/cancel before Wait. The time bound itself is not decided.",
             "2/C11", "Timing clause not decided."),
     "C12": ("CFG ordering rules on teardown/Run/Stop exits (must-pass-through, control dependence on the listener-closed atom)",
-            "Decides ordering/pairing quiescence depends on: Done last, listener released on every Run exit, Stop idempotent and ordered. The accept-vs-Stop WaitGroup ordering (D10) is reported as a note only; kernel port state not decided.",
+            "Decides the ordering/pairing quiescence depends on: Done last, every connWg.Add matched and ordered with Stop's Wait (reserved under the lock Stop holds), handlers waited for, listener released on every Run exit, Stop returns nil only after cancel+Wait, idempotent. Kernel port state is not decided.",
             "2/C12", ""),
     "C13": ("control-dependence of the StartTLS dispatch site, value provenance in StartTLS/initConn, lock-set, socket-use discipline scan",
             "Decides that no LDAP read can interleave with the upgrade and that after it all I/O goes through the TLS reader/writer pair built from the handshaken connection; crypto/tls behaviour is trusted.",
             "2/C13", ""),
     "C14": ("BER tree grammar of every control encoder (all paths) against RFC 4511 / RFC 2696 / draft-behera-10 / draft-vchu-00; attachment position; truth table of the Behera constructor",
-            "Decides agreement of every control's encoding with the published grammars (what an independent client parses), the attachment of controls in both directions and the Behera constructor's validation; encode/decode composition per field is listed as not decided until built.",
+            "Decides agreement of every control's encoding with the published grammars (what an independent client parses; ber.AppendChild modelled as a copy at call time), the attachment of controls in both directions, the Behera constructor's validation, and per-field encode->decode composition through a wire-tree oracle. Values are never inspected.",
             "2/C14", ""),
     "C15": ("frozen field classification + must-held lock sets (with entry lock sets of private callees) + confinement to the connection goroutine + who-writes scans + closure-capture check",
-            "Race freedom on the tabled state of conn, Server, Mux, ResponseWriter and Directory under the stated goroutine structure; a new field fails the check until classified. No schedule is explored.",
+            "Race freedom on the state of conn, Server, Mux, ResponseWriter and Directory under the stated goroutine structure (fields not in the table are classified from their accesses: sync type / written only during construction / always under one mutex of the struct, otherwise undecided). No schedule is explored.",
             "2/C15", ""),
     "C16": ("panic-site enumeration (engine E2) from the exported helper/constructor entries with caller-controlled parameters; sibling layout comparison for SID; order-taint and paired-write scans",
             "Decides panic freedom (enumerated classes) for all argument values and option subsets, deterministic attribute order and paired string/byte values; the value-level inverse clauses are not decided.",
